@@ -24,9 +24,9 @@ package main
 
 import (
 	"fmt"
-	"time"
 	"strconv"
 	"strings"
+	"time"
 
 	"github.com/safing/portbase/config"
 )
